@@ -18,22 +18,30 @@
 (*                      stays subscribed (cbn = persistent callbacks)      *)
 (*   rep / unrep        register_replica / unregister_replica              *)
 (*   rsub / rsubcb / runsub         subscribe_replica / unsubscribe_replica*)
+(*   asub / asubcb / aunsub (agent a, about agent c): subscribe_agent /     *)
+(*                      unsubscribe_agent                                   *)
+(*   aunreg             agent a leaves: unregister_agent (it does nothing   *)
+(*                      afterwards; what it hosted or replicated stays in   *)
+(*                      the tables, as the runtime leaves it)               *)
 (*   dl(ch)             deliver the oldest message of channel ch           *)
 (*   drain              deliver everything, in a seeded order              *)
 (***************************************************************************)
 EXTENDS Integers, Sequences, FiniteSets, TLC
 
 OpKinds == {"reg", "unreg", "sub", "subcb", "subone", "unsub", "unsubcb", "rep", "unrep", "rsub", "rsubcb", "runsub"}
+AgentOpKinds == {"asub", "asubcb", "aunsub"}
 
 InitS(Agents, Comps) == [host |-> [c \in Comps |-> ""], reps |-> [c \in Comps |-> {}],
                          subC |-> [a \in Agents |-> {}], subR |-> [a \in Agents |-> {}],
                          cbn |-> [a \in Agents |-> [c \in Comps |-> 0]],
                          \* what a itself knows for sure without any message: the computations it hosts
-                         pendingUnreg |-> {}]
+                         pendingUnreg |-> {},
+                         subA |-> [a \in Agents |-> {}], gone |-> {}]
 
 \* is operation op = [k, a, c] a sensible API call in state s ?  (an agent registers a computation nobody hosts, unregisters
 \* what it hosts, publishes a replica of a computation it hosts or follows, ...)
 Enabled(s, op) ==
+  IF op.k \notin {"dl", "drain"} /\ op.a \in s.gone THEN FALSE ELSE
   CASE op.k = "reg"    -> s.host[op.c] = ""
     [] op.k = "unreg"  -> s.host[op.c] = op.a
     [] op.k \in {"sub", "subcb", "subone"} -> s.host[op.c] # op.a
@@ -43,6 +51,9 @@ Enabled(s, op) ==
     [] op.k = "unrep"  -> op.a \in s.reps[op.c]
     [] op.k \in {"rsub", "rsubcb"} -> s.host[op.c] = op.a \/ op.c \in s.subC[op.a]
     [] op.k = "runsub" -> op.c \in s.subR[op.a]
+    [] op.k \in {"asub", "asubcb"} -> op.c # op.a
+    [] op.k = "aunsub" -> op.c \in s.subA[op.a]
+    [] op.k = "aunreg" -> TRUE
     [] OTHER -> TRUE
 
 Apply(s, op) ==
@@ -57,6 +68,9 @@ Apply(s, op) ==
     [] op.k = "unrep"  -> [s EXCEPT !.reps[op.c] = @ \ {op.a}]
     [] op.k \in {"rsub", "rsubcb"} -> [s EXCEPT !.subR[op.a] = @ \cup {op.c}]
     [] op.k = "runsub" -> [s EXCEPT !.subR[op.a] = @ \ {op.c}]
+    [] op.k \in {"asub", "asubcb"} -> [s EXCEPT !.subA[op.a] = @ \cup {op.c}]
+    [] op.k = "aunsub" -> [s EXCEPT !.subA[op.a] = @ \ {op.c}]
+    [] op.k = "aunreg" -> [s EXCEPT !.gone = @ \cup {op.a}]
     [] OTHER -> s
 
 RECURSIVE Fold(_, _, _)
@@ -68,7 +82,10 @@ Fold(s, ops, n) == IF n = 0 THEN s ELSE Apply(Fold(s, ops, n - 1), ops[n])
 BadAt(s, obs, Agents, Comps) ==
   \* (reported with what the view, the directory and the operations say about the host, for the diagnosis)
   {<<"computation_view_differs_from_directory", p[1], p[2], obs.viewC[p[1]][p[2]], obs.dirC[p[2]], s.host[p[2]]>> : p \in {p \in Agents \X Comps :
-        p[2] \in s.subC[p[1]] /\ obs.viewC[p[1]][p[2]] # obs.dirC[p[2]]}}
+        p[1] \notin s.gone /\ p[2] \in s.subC[p[1]] /\ obs.viewC[p[1]][p[2]] # obs.dirC[p[2]]}}
   \cup {<<"replica_view_differs_from_directory", a, c>> : <<a, c>> \in {p \in Agents \X Comps :
-        p[2] \in s.subR[p[1]] /\ obs.viewR[p[1]][p[2]] # obs.dirR[p[2]]}}
+        p[1] \notin s.gone /\ p[2] \in s.subR[p[1]] /\ obs.viewR[p[1]][p[2]] # obs.dirR[p[2]]}}
+  \* an agent that follows another one knows it exactly when the directory does
+  \cup {<<"agent_view_differs_from_directory", a, b>> : <<a, b>> \in {p \in Agents \X Agents :
+        p[1] \notin s.gone /\ p[2] \in s.subA[p[1]] /\ ((p[2] \in obs.viewA[p[1]]) # (p[2] \in obs.dirA))}}
 ====
